@@ -102,6 +102,7 @@ fn coverage_keys(scn: &Scenario, cov: &mut BTreeMap<String, u64>) {
                     TSpec::Shared(_) => "shared".to_string(),
                     TSpec::Own { kind, poison, .. } => format!("{}own-{:?}", if *poison { "poisonable-" } else { "" }, kind),
                     TSpec::Tagged(..) => "tagged".to_string(),
+                    TSpec::OnData { kind, poison, from, .. } => format!("{}{}-{:?}", if *poison { "poisonable-" } else { "" }, if *from { "from" } else if *kind == CollKind::Ref { "new" } else { "new_ref" }, kind),
                 };
                 *cov.entry(format!("{}/{:?}", kind, a.api)).or_insert(0) += 1;
                 *cov.entry(format!("depth{}", scn.world.depth(t))).or_insert(0) += 1;
